@@ -20,6 +20,7 @@ func C11(c *Ctx) {
 	r.Technique = "error-discipline rules: abstract interpretation of every code-block call site (error recorded under exactly err != nil, at the right position, parsing continues) in 16 variants; who-may-call / who-may-write scans for the error list; AST rules on parse(), err(), dedupe(), addErrAt() and the recover handler"
 	r.Explanation = "Decides: (a) the error result of every code-block call is passed to addErr/addErrAt exactly when it is non-nil, for actions at the position of the entry savepoint, no return lies between the call and the record, and the ok result does not depend on it; (b) only *parserError values enter the list: errList.add is called only from addErrAt with Inner set to the original error, and the prefix is file name, then line:col (offset) in that order, then the display name or name of the rule on top of the rule stack, which parseRule pushes and pops on all paths; the list is otherwise only truncated to an earlier snapshot; (c) every return of parse() yields p.errs.err(), which is nil iff the list is empty, de-duplicates and returns the list; Parse forwards parse()'s results; (d) dedupe keeps first occurrences in slice order keyed by Error(); (e) the recover handler is installed iff p.recover before the first evaluation, sets the value to nil, records the panic value and returns the list; recover defaults to true and is written only by the Recover option. Not decided: which errors survive a particular backtrack."
 	r.Assumptions = []string{"fmt.Sprintf, bytes.Buffer contracts"}
+	r.Rule("C11-f", "no deferred call moves the position (restore / read, directly or inside a deferred function literal): deferred calls run while a panic unwinds, before the recover handler of parse() records the error at the current position")
 	r.Rule("C11-a", "for each <node>.run(p) call: on paths where the returned error is non-nil an addErr/addErrAt with that error follows before the function returns; on paths where it is nil none is added; for actions the position argument is the entry savepoint's position; the ok result is independent of the error")
 	r.Rule("C11-b", "errList.add has addErrAt as only caller; the added value is &parserError{Inner: <err param>, pos: <pos param>, prefix: buf.String(), expected: ...}; the prefix is written as filename, \"%d:%d (%d)\" of pos.line,pos.col,pos.offset, then rule displayName/name of p.rstack[top]; parseRule pushes its rule and pops on all paths; *p.errs is otherwise written only by add, dedupe and the leader's snapshot restore")
 	r.Rule("C11-c", "every return of parse() has p.errs.err() as error result; err() returns nil iff len==0, else calls dedupe and returns the list; Parse returns newParser(...).parse(g) unchanged")
@@ -32,6 +33,7 @@ func C11(c *Ctx) {
 		c11a(c, a)
 		c11b(c, a)
 		c11cde(c, a.V)
+		c11f(c, a.V)
 	}
 	r.MinRule("C11-a", 3)
 }
@@ -819,4 +821,52 @@ func errListKeepsAll(c *Ctx, v *variants.Variant, rule string) {
 		why = "the path is " + abbreviate(p.String())
 	}
 	r.Check(okAdd, rule, "T.errList.add:appends-unconditionally", vn, v.Where(af.Pos()), "*e = append(*e, err) on the only path", why+": an error handed to the list is dropped or altered")
+}
+
+// c11f (C11-f): no deferred call moves the position. When a code block panics, deferred calls run while the stack
+// unwinds, before the recover handler of parse() records the error at the current position: a deferred restore()
+// (or read()) would make the reported position that of the enclosing predicate, not where the panic arose.
+func c11f(c *Ctx, v *variants.Variant) {
+	r := c.R
+	moves := map[string]bool{"restore": true, "read": true}
+	var bad []string
+	n := 0
+	for _, fd := range v.Funcs() {
+		if fd.Body == nil {
+			continue
+		}
+		ast.Inspect(fd.Body, func(nd ast.Node) bool {
+			ds, ok := nd.(*ast.DeferStmt)
+			if !ok {
+				return true
+			}
+			n++
+			var scan func(m ast.Node)
+			scan = func(m ast.Node) {
+				ast.Inspect(m, func(k ast.Node) bool {
+					if ce, ok := k.(*ast.CallExpr); ok {
+						if moves[callSel(ce)] {
+							if sel, isSel := ce.Fun.(*ast.SelectorExpr); isSel && nospace(sel.X) == "p" {
+								bad = append(bad, fmt.Sprintf("%s: %s defers %s: it runs during a panic before the handler records the error, which is then placed at the restored position", v.Where(ds.Pos()), fd.Name.Name, nospace(ce)))
+							}
+						}
+					}
+					return true
+				})
+			}
+			// the deferred call itself (its arguments are evaluated at the defer statement, not later) and the body
+			// of a deferred function literal
+			if moves[callSel(ds.Call)] {
+				if sel, isSel := ds.Call.Fun.(*ast.SelectorExpr); isSel && nospace(sel.X) == "p" {
+					bad = append(bad, fmt.Sprintf("%s: %s defers %s: it runs during a panic before the handler records the error, which is then placed at the restored position", v.Where(ds.Pos()), fd.Name.Name, nospace(ds.Call)))
+				}
+			}
+			if fl, ok := ds.Call.Fun.(*ast.FuncLit); ok {
+				scan(fl.Body)
+			}
+			return true
+		})
+	}
+	sort.Strings(bad)
+	r.Check(len(bad) == 0, "C11-f", "T.defers:no-deferred-position-change", v.Name, "builder/static_code.go", fmt.Sprintf("%d defer statements, none restores or advances the position", n), strings.Join(uniq(bad), "; "))
 }
